@@ -185,10 +185,25 @@ class CFG:
         from .facts import children, strip_all_casts
         if c is not None and c.get('k') == 'CXXForRangeStmt':
             return None      # hidden `__begin != __end` of a range-for: no source-level condition
-        while c is not None and c.get('k') == 'BinaryOperator' and c.get('op') in ('||', '&&') \
-                and b.get('term') != c['id']:
+        if c is not None and c.get('k') == 'BinaryOperator' and c.get('op') in ('||', '&&') and \
+                c.get('id') in [e for e in b.get('e', []) if isinstance(e, int)]:
+            # a join block (clang builds one when an operand needs temporaries): the short-circuit edges of all
+            # operands end here and the block branches on the value of the WHOLE expression
+            return c
+        first = True
+        while c is not None and c.get('k') == 'BinaryOperator' and c.get('op') in ('||', '&&'):
             kids = children(c)
-            c = strip_all_casts(kids[1]) if len(kids) == 2 else None
+            if len(kids) != 2:
+                return None
+            if first and b.get('term') == c['id']:
+                # the block ends in this short-circuit operator itself: its LEFT operand decides
+                c = strip_all_casts(kids[0])
+            else:
+                # the operator was evaluated up to here: its value is that of its right operand
+                c = strip_all_casts(kids[1])
+            first = False
+            while c is not None and c.get('k') == 'ParenExpr':
+                c = strip_all_casts(children(c)[0])
         return c
 
     def loops(self):
